@@ -18,7 +18,7 @@ Dependency suites (rules/deps.py; each obligation is a necessary condition of th
 kernel-build (C07.T-conn, C07.T-ite0, C07.R-ite, S.F-memo ite_cache, S.R-node, S.R-new, S.W-store, C06.W-ctor), kernel-restrict
 (C07.R-restrict, S.F-memo restrict_cache) and translation (C09.A-wire, C09.A-term, C09.F-order, C09.A-name, C01.A-hybrid): an answer
 is computed on diagrams built by these functions, on every back-end.  cli-plumbing (C08.F-input, C10.P-cli, C10.F-print): what every answer
-printed by adf-bdd passes through, whatever the semantics."""
+printed by adf-bdd passes through, whatever the semantics. iterator-two (the C20 obligations of TwoValuedInterpretationsIterator, whose completions are the candidates)."""
 NOT_DECIDED = "Equality with the definitional set for all ADFs; biodivine's sat_valuations/eval_expression are trusted."
 TECHNIQUE = "static analysis: finite-domain closure tables (reduct idiom), expression reconstruction with index/provenance agreement, exhaustive-consumption rule"
 
@@ -369,4 +369,5 @@ def check(ctx):
                                  only_fns={"Adf::stable", "Adf::stable_with_prefilter", "Adf::stable_bdd_representation", "Adf::stable_model_candidates"})
         ctx.floor(rule, "stable chains", nx, 6)
         deps.semantics_base(ctx, lib)
+        deps.iterator(ctx, lib, "two")      # stable / stable_with_prefilter enumerate the completions of grounded through the two-valued iterator
     deps.cli_plumbing(ctx)
